@@ -172,7 +172,11 @@ def cleanup_old_processed_messages(
     """Clean up old processed message records."""
     cutoff = datetime.now(UTC) - timedelta(hours=max_age_hours)
     cursor = conn.execute(
-        "DELETE FROM processed_messages WHERE processed_at < :cutoff",
+        # processed_at is written by SQLite as 'YYYY-MM-DD HH:MM:SS'; the cutoff
+        # is an ISO string with 'T' and an offset. Compared as plain strings,
+        # every record of the cutoff's calendar day sorted below the cutoff
+        # (' ' < 'T') and was swept whatever its age. Normalise both sides.
+        "DELETE FROM processed_messages WHERE datetime(processed_at) < datetime(:cutoff)",
         {"cutoff": cutoff.isoformat()},
     )
     conn.commit()
